@@ -24,7 +24,7 @@ ENSURES((buf != NULL && len >= 1 && len <= 256) IMPLIES (G_ge_calls == OLD(G_ge_
 typedef struct { size_t len; uint8_t mode; } rb_in;
 DECL_INPUT(rb_in);
 
-//@job name=rand_bytes props=C18 enforce=rand_bytes replace=getentropy
+//@job name=rand_bytes props=C18,C20 enforce=rand_bytes replace=getentropy
 void h_rand_bytes(void)
 {
 	INPUT(rb_in, I); ASSUME(I.len <= 100000);
